@@ -1,127 +1,18 @@
-import Wayfind.Model.Display
-import Wayfind.Model.Parser
+import Wayfind.Model.Router
+import Wayfind.Spec.FitsExec
+import Wayfind.Spec.Greedy
+import Wayfind.Driver.Codec
+import Wayfind.Driver.Judge
 
-/-! line-protocol driver (prototype): insert of pre-parsed part lists, optimize, search -/
+/-! `wfmodel` — line-protocol driver.
 
-def hexVal (c : Char) : Option Nat :=
-  if '0' ≤ c ∧ c ≤ '9' then some (c.toNat - '0'.toNat)
-  else if 'a' ≤ c ∧ c ≤ 'f' then some (c.toNat - 'a'.toNat + 10) else none
+  wfmodel replay <ops>                 model output, one line per operation
+  wfmodel judge  <ops> <impl.out>      correspondence (D lines), oracles on the implementation (O lines),
+                                        coverage counters (S lines)
+-/
 
-def unhex : List Char → Option Bytes
-  | [] => some []
-  | a :: b :: rest => do
-    let x ← hexVal a; let y ← hexVal b; let t ← unhex rest
-    pure (UInt8.ofNat (x * 16 + y) :: t)
-  | _ => none
-
-def hexDigit (n : Nat) : Char := if n < 10 then Char.ofNat (48 + n) else Char.ofNat (87 + n)
-def hex (b : Bytes) : String := String.ofList (b.flatMap (fun x => [hexDigit (x.toNat / 16), hexDigit (x.toNat % 16)]))
-
-/-- UTF-8 validity as `core::str::from_utf8` decides it -/
-def utf8Valid : Bytes → Bool
-  | [] => true
-  | b :: rest =>
-    if b < 0x80 then utf8Valid rest
-    else if b < 0xC2 then false
-    else if b < 0xE0 then
-      match rest with
-      | c :: r => (0x80 ≤ c && c ≤ 0xBF) && utf8Valid r
-      | _ => false
-    else if b < 0xF0 then
-      match rest with
-      | c :: d :: r =>
-        let lo : UInt8 := if b == 0xE0 then 0xA0 else 0x80
-        let hi : UInt8 := if b == 0xED then 0x9F else 0xBF
-        (lo ≤ c && c ≤ hi) && (0x80 ≤ d && d ≤ 0xBF) && utf8Valid r
-      | _ => false
-    else if b < 0xF5 then
-      match rest with
-      | c :: d :: e :: r =>
-        let lo : UInt8 := if b == 0xF0 then 0x90 else 0x80
-        let hi : UInt8 := if b == 0xF4 then 0x8F else 0xBF
-        (lo ≤ c && c ≤ hi) && (0x80 ≤ d && d ≤ 0xBF) && (0x80 ≤ e && e ≤ 0xBF) && utf8Valid r
-      | _ => false
-    else false
-termination_by l => l.length
-
-/-- the two test constraints of the prototype harness: "even" (even length) and "nota" (anything but "a") -/
-def chkProto (name v : Bytes) : Bool :=
-  if name == "even".toUTF8.toList then v.length % 2 == 0
-  else if name == "nota".toUTF8.toList then v != [97]
-  else false
-
-def envProto : Env := ⟨chkProto, utf8Valid⟩
-
-def parsePart (tok : String) : Option Part :=
-  match tok.toList with
-  | 'S' :: h => (unhex h).map Part.stat
-  | 'P' :: k :: rest =>
-    let s := String.ofList rest
-    match s.splitOn ":" with
-    | [n, c] => do
-      let nb ← unhex n.toList; let cb ← unhex c.toList
-      let kind ← (match k with | 'd' => some PKind.dyn | 'D' => some PKind.dynC | 'w' => some PKind.wild | 'W' => some PKind.wildC | _ => none)
-      pure (Part.par kind {name := nb, cons := cb})
-    | _ => none
-  | _ => none
-
-def showPart : Part → String
-  | .stat p => "S" ++ hex p
-  | .par k l => "P" ++ (match k with | .dyn => "d" | .dynC => "D" | .wild => "w" | .wildC => "W") ++ hex l.name ++ ":" ++ hex l.cons
-
-def showErr : TErr → String
-  | .empty => "Empty"
-  | .missingLeadingSlash t => s!"MissingLeadingSlash {hex t}"
-  | .emptyBraces t p => s!"EmptyBraces {hex t} {p}"
-  | .unbalancedBrace t p => s!"UnbalancedBrace {hex t} {p}"
-  | .emptyParentheses t p => s!"EmptyParentheses {hex t} {p}"
-  | .unbalancedParenthesis t p => s!"UnbalancedParenthesis {hex t} {p}"
-  | .emptyParameter t a b => s!"EmptyParameter {hex t} {a} {b}"
-  | .invalidParameter t n a b => s!"InvalidParameter {hex t} {hex n} {a} {b}"
-  | .duplicateParameter t n a b c d => s!"DuplicateParameter {hex t} {hex n} {a} {b} {c} {d}"
-  | .emptyWildcard t a b => s!"EmptyWildcard {hex t} {a} {b}"
-  | .emptyConstraint t a b => s!"EmptyConstraint {hex t} {a} {b}"
-  | .invalidConstraint t n a b => s!"InvalidConstraint {hex t} {hex n} {a} {b}"
-  | .touchingParameters t a b => s!"TouchingParameters {hex t} {a} {b}"
-
-def showParsed (input : Bytes) : String :=
-  match parseTemplates input with
-  | .error e => "err " ++ showErr e
-  | .ok ts => "ok " ++ ";".intercalate (ts.map (fun (raw, ps) => hex raw ++ "|" ++ ",".intercalate (ps.map showPart)))
-
-def step (root : Node) (line : String) : Node × Option String :=
-  match line.trimAscii.toString.splitOn " " with
-  | "I" :: id :: depth :: len :: parts =>
-    match id.toNat?, depth.toNat?, len.toNat?, parts.mapM parsePart with
-    | some i, some d, some l, some ps => (Node.insert root ps ⟨i, d, l⟩, none)
-    | _, _, _, _ => (root, some "bad-op")
-  | ["O"] => (Node.optimize root, none)
-  | "D" :: parts =>
-    match parts.mapM parsePart with
-    | some ps => ((Node.delete false root ps).1, none)
-    | none => (root, some "bad-op")
-  | ["T"] => (root, some (hex (Node.display root).toUTF8.toList))
-  | ["Q", p] =>
-    match (if p == "-" then some [] else unhex p.toList) with
-    | some path =>
-      match Node.search envProto root path [] with
-      | none => (root, some "none")
-      | some (i, ps) => (root, some (s!"{i.tpl}" ++ String.join (ps.map (fun (a, b) => " " ++ hex a ++ "=" ++ hex b))))
-    | none => (root, some "bad-op")
-  | ["N"] => (Node.empty, none)
-  | ["P", t] =>
-    match (if t == "-" then some [] else unhex t.toList) with
-    | some input => (root, some (showParsed input))
-    | none => (root, some "bad-op")
-  | _ => (root, some "bad-op")
-
-partial def loop (h : IO.FS.Stream) (out : IO.FS.Stream) (root : Node) : IO Unit := do
-  let line ← h.getLine
-  if line.isEmpty then return ()
-  let (root', o) := step root line
-  match o with
-  | some s => out.putStrLn s
-  | none => pure ()
-  loop h out root'
-
-def main : IO Unit := do loop (← IO.getStdin) (← IO.getStdout) Node.empty
+def main (args : List String) : IO UInt32 := do
+  match args with
+  | ["replay", ops] => Driver.replay ops; return 0
+  | ["judge", ops, impl] => Driver.judge ops impl; return 0
+  | _ => IO.eprintln "usage: wfmodel replay <ops> | judge <ops> <impl.out>"; return 2
